@@ -47,6 +47,8 @@ def run(ctx, chk):
     from . import c08
     chk.rule("H6", "end of stream (0 bytes) leaves every receive loop: a shut-down socket unblocks the daemon thread")
     c08.s7s8(fb, Renamed(chk, {"S8": "H6"}))
+    from . import xlist
+    xlist.apply("C16", fb, chk)
     n = lambda r: len([i for i in chk.instances if i[0] == r])
     chk.floor("H3", n("H3"), 5)
 
